@@ -460,6 +460,7 @@ static SSL_CTX *o_ctx_new(const cfg_t *c, const char **why)
 }
 
 /* ---- MatrixSSL side ---- */
+static int m_ticket_generation;
 static sslKeys_t *m_keys_new(const cfg_t *c, const char **why)
 {
     const mx_suite_t *s = &mx_suites[c->suite]; int server = c->role == R_MXS;
@@ -476,8 +477,8 @@ static sslKeys_t *m_keys_new(const cfg_t *c, const char **why)
     }
     if (c->res == RS_EXTPSK && matrixSslLoadTls13Psk(k, ext_psk, ext_psk_len(s), mx_tls13_psk_id, sizeof(mx_tls13_psk_id) - 1, NULL) < 0) { *why = "mx_cannot_load_tls13_psk"; matrixSslDeleteKeys(k); return NULL; }
     if (server && (c->res == RS_TICKET || c->res == RS_PSK13)) {
-        static const unsigned char name[16] = "c10-ticket-key-1"; unsigned char sym[32], mac[32];
-        memset(sym, 0x5c, 32); memset(mac, 0xa7, 32);
+        static unsigned char name[16] = "c10-ticket-key-1"; unsigned char sym[32], mac[32];
+        name[15] = (unsigned char) ('1' + m_ticket_generation); memset(sym, 0x5c + m_ticket_generation, 32); memset(mac, 0xa7 - m_ticket_generation, 32);   /* generation > 0: the keys of a "restarted" server */
         if (matrixSslLoadSessionTicketKeys(k, name, sym, 32, mac, 32) < 0) { *why = "mx_cannot_load_ticket_keys"; matrixSslDeleteKeys(k); return NULL; }
     }
     return k;
@@ -668,7 +669,7 @@ static int run_connection(conn_t *k, const cfg_t *c, SSL_CTX *ctx, sslKeys_t *mk
     int both = k->odone && !k->ofail && m_done(k) && !k->M.dead;
     if (!both) {
         char st[900]; describe_failure(k, st, sizeof st);
-        fail(connno ? "resumed-handshake-fails" : "handshake-fails", connno ? resname[c->res] : kxname(k->s), "%s handshake did not complete on both stacks | %s", connno ? "second (resumption)" : "first", st);
+        fail(connno == 2 ? "declined-resumption-handshake-fails" : connno ? "resumed-handshake-fails" : "handshake-fails", connno ? resname[c->res] : kxname(k->s), "%s handshake did not complete on both stacks | %s", connno == 2 ? "third (resumption state offered to a peer that cannot use it)" : connno ? "second (resumption)" : "first", st);
         return -1;
     }
     R->ok = 1;
@@ -791,6 +792,14 @@ static int execute(const cfg_t *c)
                 else STATF(1, "resumed_%s_%s", resname[c->res], rolename[c->role]);
             }
             conn_free(&K);
+            /* third connection: the same resumption state offered to a server that cannot use it (other ticket keys / empty session cache, e.g. a restarted
+               or load-balanced peer).  Declining is the peer's right: the connection must fall back to a full handshake and work. */
+            if (rc == 0 && R2.ok) {
+                int declined = 0;
+                if (c->role == R_MXC) { SSL_CTX *ctx2 = o_ctx_new(c, &why); if (ctx2) { mx_now += 2; rc = run_connection(&K, c, ctx2, mk, sid, 2, K.dtls ? 0x1 : 0x3, &R2); declined = 1; conn_free(&K); SSL_CTX_free(ctx2); } }
+                else { m_ticket_generation = 1; sslKeys_t *mk2 = m_keys_new(c, &why); m_ticket_generation = 0; if (mk2) { MX_ENTER(); matrixSslClose(); matrixSslOpen(); MX_LEAVE(); mx_now += 2; rc = run_connection(&K, c, ctx, mk2, NULL, 2, K.dtls ? 0x1 : 0x3, &R2); declined = 1; conn_free(&K); matrixSslDeleteKeys(mk2); } }
+                if (declined && R2.ok) { if (R2.mres && R2.ores) fail("parameter-mismatch", "resumed-flag", "a peer without the resumption state reports the third connection as resumed"); else STATF(1, "declined_resumption_fell_back_%s_%s", resname[c->res], rolename[c->role]); }
+            }
         }
     }
 out:
